@@ -1,7 +1,9 @@
 """C05 - kernel values equal the documented covariance functions and derivatives.
 Spec: Kernels.tla (configuration lattice with the fast/generic dispatch predicate; derivative-kernel layout; exact rational
 instances: linear / polynomial / constant expressions with Scale / Sum / Product and active_dims, PolynomialKernelGrad, RBF
-derivative ratios, piecewise polynomials, Newton-Girard sums).
+derivative ratios, piecewise polynomials, Newton-Girard sums, ArcKernel with an activity indicator on quarter-turn phases,
+Index / Multitask / LCM kernels; part "args": the constructor-argument lattice - every optional documented constructor argument
+of every kernel over its non-default value classes; DistinctOK: no multi-valued parameter with two equal entries).
 Replay: every lattice cell through the real kernel against the documented formula (checks/c05_ref.py), both code paths of the
 two-path kernels; TLC's exact rationals through the real kernels.  Level "other": reference-formula comparison on a
 TLC-enumerated lattice; only the rational parts are decided exactly."""
@@ -35,6 +37,11 @@ def _q(rnd, choices=((1, 2), (1, 1), (3, 2), (2, 1), (1, 3), (2, 3))):
     return list(rnd.choice(choices))
 
 
+def _qs(rnd, k, choices=((1, 2), (1, 1), (3, 2), (2, 1), (1, 3), (2, 3))):
+    """k pairwise DISTINCT rationals (multi-valued parameters never carry two equal entries: DistinctOK in Kernels.tla)"""
+    return [list(c) for c in rnd.sample(list(choices), k)]
+
+
 def _mat(rnd, n, d, lo=-2, hi=2):
     return [[rnd.randint(lo, hi) for _ in range(d)] for _ in range(n)]
 
@@ -49,7 +56,7 @@ def gen_expr(rnd, depth, d_in):
         ad = [] if rnd.random() < 0.4 else rnd.sample(range(1, d_in + 1), rnd.randint(1, d_in - 1))
         k = len(ad) or d_in
         if kind == "lin":
-            return dict(op="lin", v=[_q(rnd) for _ in range(k if rnd.random() < 0.5 else 1)], ad=ad)
+            return dict(op="lin", v=_qs(rnd, k if rnd.random() < 0.5 else 1), ad=ad)        # ARD variances pairwise distinct
         if kind == "poly":
             return dict(op="poly", off=_q(rnd, ((1, 2), (3, 2), (1, 3), (1, 1))), p=rnd.randint(1, 3), ad=ad)
         return dict(op="const", cv=_q(rnd))
@@ -69,7 +76,10 @@ def gen_instances(rnd, thorough):
     lin = dict(op="lin", v=[[3, 2]], ad=[])
     poly = dict(op="poly", off=[1, 2], p=2, ad=[3, 1])
     for e in (dict(op="scale", s=[2, 3], a=dict(op="sum", a=lin, b=poly)), dict(op="prod", a=dict(op="const", cv=[3, 2]), b=poly),
-              dict(op="sum", a=dict(op="scale", s=[1, 2], a=lin), b=dict(op="prod", a=lin, b=poly)), dict(op="scale", s=[3, 1], a=dict(op="scale", s=[1, 2], a=dict(op="lin", v=[[1, 2], [2, 1]], ad=[2, 3])))):
+              dict(op="sum", a=dict(op="scale", s=[1, 2], a=lin), b=dict(op="prod", a=lin, b=poly)), dict(op="scale", s=[3, 1], a=dict(op="scale", s=[1, 2], a=dict(op="lin", v=[[1, 2], [2, 1]], ad=[2, 3]))),
+              dict(op="prod", a=lin, b=dict(op="sum", a=poly, b=dict(op="const", cv=[2, 3]))),                       # a sum as the RIGHT factor of a product, a product as the right summand, sum * sum
+              dict(op="sum", a=poly, b=dict(op="prod", a=lin, b=dict(op="const", cv=[3, 2]))),
+              dict(op="prod", a=dict(op="sum", a=lin, b=dict(op="const", cv=[1, 2])), b=dict(op="sum", a=poly, b=lin))):
         out.append(dict(kind="expr", X1=_mat(rnd, 3, 3), X2=_mat(rnd, 2, 3), e=e))
     for _ in range(16 * mult):
         n1, n2 = _shape(rnd)
@@ -79,7 +89,7 @@ def gen_instances(rnd, thorough):
         order = 1 + t % 2
         n1, n2 = _shape(rnd) if (order == 1 or t % 4 == 1) else rnd.choice([(2, 2), (1, 1), (3, 3)])
         d = rnd.randint(1, 3 if order == 1 else 2)
-        l2 = [_q(rnd, ((1, 2), (1, 1), (2, 1), (3, 2), (4, 1))) for _ in range(d if rnd.random() < 0.5 else 1)]
+        l2 = _qs(rnd, d if rnd.random() < 0.5 else 1, ((1, 2), (1, 1), (2, 1), (3, 2), (4, 1)))
         out.append(dict(kind="rbfratio", X1=_mat(rnd, n1, d), X2=_mat(rnd, n2, d), l2=l2, order=order))
     for t in range(32 * mult):
         D, q = 1 + t % 4, (t // 4) % 4
@@ -90,7 +100,31 @@ def gen_instances(rnd, thorough):
         D = 2 + t % 3
         n1, n2 = _shape(rnd) if t % 3 else (2, 2)
         R = rnd.randint(1, D)
-        out.append(dict(kind="ng", X1=_mat(rnd, n1, D), X2=_mat(rnd, n2, D), v=_q(rnd, ((1, 2), (1, 1), (3, 2))), o=[_q(rnd) for _ in range(R)]))
+        out.append(dict(kind="ng", X1=_mat(rnd, n1, D), X2=_mat(rnd, n2, D), v=_q(rnd, ((1, 2), (1, 1), (3, 2))), o=_qs(rnd, R)))
+    for t in range(24 * mult):          # ArcKernel with an activity indicator: quarter-turn phases Q, activity A, radius om (one per dimension with ARD)
+        d = 1 + t % 3
+        n1, n2 = _shape(rnd)
+        ard = d > 1 and t % 2 == 0
+        k = d if ard else 1
+        inst = dict(kind="arcmask", Q1=_mat(rnd, n1, d, 0, 5), Q2=_mat(rnd, n2, d, 0, 5), A1=[[int(rnd.random() < 0.6) for _ in range(d)] for _ in range(n1)],
+                    A2=[[int(rnd.random() < 0.6) for _ in range(d)] for _ in range(n2)], om=_qs(rnd, k, ((1, 2), (1, 1), (3, 2), (2, 1), (2, 3), (4, 3))),
+                    rho=_qs(rnd, k, ((1, 4), (1, 2), (3, 4), (1, 5), (2, 5), (3, 5))), L=_qs(rnd, k, ((1, 1), (3, 2), (2, 1), (5, 4), (1, 2))), base=("rq", "lin", "poly")[t % 3])
+        inst["A1"][0][0], inst["A2"][0][0] = 0, 1          # at least one pair active / inactive in the same coordinate
+        if inst["base"] == "lin":
+            inst["v"] = _q(rnd)
+        if inst["base"] == "poly":
+            inst.update(off=_q(rnd, ((1, 2), (3, 2), (1, 3), (1, 1))), p=rnd.randint(1, 3))
+        out.append(inst)
+    for t in range(18 * mult):          # IndexKernel / MultitaskKernel (one term) / LCMKernel (several terms with different ranks)
+        T = 2 + t % 2
+        nterms = 1 + t % 3
+        n1, n2 = _shape(rnd)
+        terms = []
+        for k in range(nterms):
+            r = 1 + (k + t // 3) % T
+            e = dict(op="lin", v=_qs(rnd, 2), ad=[]) if (k + t) % 2 == 0 else dict(op="poly", off=_q(rnd, ((1, 2), (3, 2), (1, 3), (1, 1))), p=rnd.randint(1, 2), ad=[])
+            terms.append(dict(B=_mat(rnd, T, r), v=_qs(rnd, T), e=e))
+        out.append(dict(kind="mtask", T=T, terms=terms, X1=_mat(rnd, n1, 2), X2=_mat(rnd, n2, 2), I1=[rnd.randrange(T) for _ in range(n1)], I2=[rnd.randrange(T) for _ in range(n2)]))
     for k, inst in enumerate(out):
         inst["id"] = k
     return out
@@ -128,11 +162,16 @@ def _install_spies():
 
 def _worker(item):
     torch = core.setup_torch()
+    import logging
     import gpytorch  # noqa
+    if not getattr(_worker, "quiet", False):                # the cells that hand priors to SpectralMixtureKernel are meant to: it logs a warning on the root logger
+        logging.getLogger().addFilter(lambda rec: "Priors not implemented" not in rec.getMessage())
+        _worker.quiet = True
     _install_spies()
     out = []
     for c in item["cases"]:
-        fn = dict(cell=run_cell, expr=run_expr, polygrad=run_polygrad, rbfratio=run_rbfratio, pp=run_pp, ng=run_ng, layout=run_layout, special=run_special)[c["kind"]]
+        fn = dict(cell=run_cell, expr=run_expr, polygrad=run_polygrad, rbfratio=run_rbfratio, pp=run_pp, ng=run_ng, layout=run_layout, special=run_special, arcmask=run_arcmask,
+                  mtask=run_mtask)[c["kind"]]
         r = fn(torch, gpytorch, c)
         out.extend(r if isinstance(r, list) else [r])
     return out
@@ -144,8 +183,12 @@ def _dense(x):
 
 
 def cell_desc(cell):
-    return "%s d=%d%s%s comp=%s batch=%s mode=%s force=%s" % (cell["fam"], cell["d"], " ARD" if cell["ard"] else "", " active_dims" if cell["adims"] else "", cell["comp"], cell["batch"],
-                                                             cell["mode"], cell["force"])
+    return "%s%s d=%d%s%s comp=%s batch=%s mode=%s force=%s" % (cell["fam"], "(%s=%s)" % (cell["arg"], cell["val"]) if cell.get("arg") else "", cell["d"], " ARD" if cell["ard"] else "",
+                                                               " active_dims" if cell["adims"] else "", cell["comp"], cell["batch"], cell["mode"], cell["force"])
+
+
+def is_kink(cell):
+    return cell["fam"] in KINK or (cell.get("arg"), cell.get("val")) in (("radial_base_kernel", "matern05"),)
 
 
 def run_cell(torch, gpytorch, c):
@@ -159,11 +202,18 @@ def run_cell(torch, gpytorch, c):
     tree, d_in = R.cell_tree(cell, g)
     xb = [2] if cell["batch"] != "none" else []
     n1, n2 = NS[mode]
-    x1 = R.sample_inputs(fam, d_in, xb, n1, g)
-    x2 = R.sample_inputs(fam, d_in, xb, n2, g) if mode in ("gt", "lt") else None
+    vocab = tree.get("P", {}).get("vocab", R.HAMMING_VOCAB)
+    x1 = R.sample_inputs(fam, d_in, xb, n1, g, vocab)
+    x2 = R.sample_inputs(fam, d_in, xb, n2, g, vocab) if mode in ("gt", "lt") else None
+    dup = R.tree_dups(tree)
+    if dup:
+        return dict(machinery="C05 instance with equal entries in a multi-valued parameter (%s) for %s" % (dup, desc))
     want = None                 # the reference is computed after the first successful evaluation (a cell that raises needs none)
     rt = 1e-7 if fam == "sm" else RTOL
-    sigtail = "%s-%s%s" % (cell["comp"], mode, "" if cell["path"] == "single" else "-" + cell["path"])
+    if cell.get("arg"):
+        sigtail = "arg-%s=%s-%s" % (cell["arg"], cell["val"], mode)
+    else:
+        sigtail = "%s-%s%s" % (cell["comp"], mode, "" if cell["path"] == "single" else "-" + cell["path"])
     runs = [None]
     if fam == "ngadd":
         runs = [torch.float32, torch.float64]        # NewtonGirardAdditiveKernel allocates its work tensors in the default dtype
@@ -199,7 +249,7 @@ def run_cell(torch, gpytorch, c):
             if not torch.isfinite(want).all():
                 return dict(machinery="C05 reference not finite for %s" % desc)
         tol = (2e-6, 1e-9) if dflt is torch.float32 else (rt, ATOL)
-        if fam in KINK and mode in ("same", "diag"):
+        if is_kink(cell) and mode in ("same", "diag"):
             # coincident points: the code takes the root of a squared distance that carries rounding ~1e-16, i.e. r ~ 1e-8 instead of 0
             if mode == "same":
                 blk = torch.arange(got.shape[-1]) // (got.shape[-1] // n1)
@@ -215,10 +265,10 @@ def run_cell(torch, gpytorch, c):
             res.update(ok=False, sig="C05/%s/value/%s" % (fam, sigtail), detail="%s: kernel value differs from the documented covariance function: %s" % (desc, why))
             return res
     took_fast = any(s.n > 0 for s in _SPIES)
-    if took_fast != (cell["path"] == "fast"):
+    if not cell.get("arg") and took_fast != (cell["path"] == "fast"):
         res["drift"] = "Kernels.tla predicts path %s for %s, the code %s the hand-written Function" % (cell["path"], desc, "called" if took_fast else "did not call")
     if seed % 97 == 0:
-        res["sample"] = dict(cell=desc, path=cell["path"], shape=list(want.shape), first_entry=float(want.reshape(-1)[0]))
+        res["sample"] = dict(cell=desc, path=cell.get("path"), shape=list(want.shape), first_entry=float(want.reshape(-1)[0]))
     return res
 
 
@@ -421,6 +471,110 @@ def run_ng(torch, gpytorch, c):
     return out
 
 
+def _nonneg(x):
+    return (x >= 0).to(x.dtype)
+
+
+def run_arcmask(torch, gpytorch, c):
+    """ArcKernel(delta_func = coordinate is non-negative) on inputs whose active coordinates have phase pi rho x / L = q pi / 2 exactly"""
+    import math  # noqa
+    inst, exp = c["inst"], c["exp"]
+    D = torch.float64
+    K = gpytorch.kernels
+    d, ard = len(inst["Q1"][0]), len(inst["om"]) > 1
+
+    def vec(name):
+        return torch.tensor([[float(fr(v)) for v in inst[name]]], dtype=D)
+    rho, L, om = vec("rho"), vec("L"), vec("om")
+
+    def inputs(Qm, Am):
+        q, a = torch.tensor(Qm, dtype=D), torch.tensor(Am, dtype=D)
+        return torch.where(a > 0, q, -(q + 1)) * L / (2 * rho)            # inactive coordinates are encoded as negative numbers
+    X1, X2 = inputs(inst["Q1"], inst["A1"]), inputs(inst["Q2"], inst["A2"])
+    desc = "ArcKernel(%s, delta_func = (x >= 0)%s) angle=%s radius=%s lengthscale=%s quarter turns %s x %s activity %s x %s" % (
+        inst["base"], ", ard_num_dims=%d" % d if ard else "", [str(fr(v)) for v in inst["rho"]], [str(fr(v)) for v in inst["om"]], [str(fr(v)) for v in inst["L"]], inst["Q1"], inst["Q2"], inst["A1"], inst["A2"])
+    res = dict(key=["arcmask", inst], ok=True, nontrivial=True, case=c)
+    if inst["id"] % 12 == 0:
+        res["sample"] = dict(exact_instance=desc, K=[[str(fr(v)) for v in row] for row in exp["K"]])
+
+    def call():
+        if inst["base"] == "rq":
+            base = K.RQKernel()
+        elif inst["base"] == "lin":
+            base = K.LinearKernel()
+        else:
+            base = K.PolynomialKernel(power=inst["p"])
+        k = K.ArcKernel(base, delta_func=_nonneg, **({"ard_num_dims": d} if ard else {})).to(D)
+        k.angle, k.radius, k.lengthscale = rho, om, L
+        if inst["base"] == "rq":
+            k.base_kernel.lengthscale = torch.ones(1, 1, dtype=D)
+            k.base_kernel.alpha = torch.ones(1, dtype=D)
+        elif inst["base"] == "lin":
+            k.base_kernel.variance = torch.tensor([[float(fr(inst["v"]))]], dtype=D)
+        else:
+            k.base_kernel.offset = torch.tensor([float(fr(inst["off"]))], dtype=D)
+        return _dense(k(X1, X2)), _dense(k(X1, diag=True))
+    ok, got = core.guarded(call)
+    area = "C05/arc/exact-delta_func-%s" % inst["base"]
+    if not ok:
+        res.update(ok=False, sig=area + "/raises", detail="%s: raised %s" % (desc, got))
+        return res
+    ok, why = core.close(got[0], fmat(torch, exp["K"]), 1e-11, 1e-12)
+    if not ok:
+        res.update(ok=False, sig=area + "/value", detail="%s: differs from the base kernel on the documented embedding (inactive coordinates at the origin) evaluated exactly by TLC: %s" % (desc, why))
+        return res
+    ok, why = core.close(got[1], torch.tensor([float(fr(v)) for v in exp["diag"]], dtype=D), 1e-11, 1e-12)
+    if not ok:
+        res.update(ok=False, sig=area + "/diag", detail="%s: diag=True differs from the exact diagonal computed by TLC: %s" % (desc, why))
+    return res
+
+
+def run_mtask(torch, gpytorch, c):
+    inst, exp = c["inst"], c["exp"]
+    D = torch.float64
+    K = gpytorch.kernels
+    T, terms = inst["T"], inst["terms"]
+    X1, X2 = torch.tensor(inst["X1"], dtype=D), torch.tensor(inst["X2"], dtype=D)
+    I1, I2 = torch.tensor(inst["I1"]).unsqueeze(-1), torch.tensor(inst["I2"]).unsqueeze(-1)
+    desc = "T=%d terms=%s X1=%s X2=%s" % (T, ["k=%s B=%s v=%s" % (expr_str(t["e"]), t["B"], [str(fr(v)) for v in t["v"]]) for t in terms], inst["X1"], inst["X2"])
+    out = []
+
+    def set_task(ik, t):
+        ik.initialize(covar_factor=torch.tensor(t["B"], dtype=D))
+        ik.var = torch.tensor([float(fr(v)) for v in t["v"]], dtype=D)
+
+    def index():
+        k = K.IndexKernel(num_tasks=T, rank=len(terms[0]["B"][0])).to(D)
+        set_task(k, terms[0])
+        return _dense(k(I1, I2)), None
+
+    def multi():
+        if len(terms) == 1:
+            k = K.MultitaskKernel(build_expr(torch, K, terms[0]["e"]), num_tasks=T, rank=len(terms[0]["B"][0])).to(D)
+            set_task(k.task_covar_module, terms[0])
+        else:
+            k = K.LCMKernel([build_expr(torch, K, t["e"]) for t in terms], num_tasks=T, rank=[len(t["B"][0]) for t in terms]).to(D)
+            for m, t in zip(k.covar_module_list, terms):
+                set_task(m.task_covar_module, t)
+        return _dense(k(X1, X2)), _dense(k(X1, diag=True))
+    for area, fn, field, what in (("index", index, "idx", "IndexKernel on indices %s x %s" % (inst["I1"], inst["I2"])),
+                                  ("multitask" if len(terms) == 1 else "lcm", multi, "K", "MultitaskKernel" if len(terms) == 1 else "LCMKernel(rank=%s)" % [len(t["B"][0]) for t in terms])):
+        res = dict(key=["mtask", area, inst], ok=True, nontrivial=True, case=c)
+        ok, got = core.guarded(fn)
+        if not ok:
+            res.update(ok=False, sig="C05/%s/raises/exact" % area, detail="%s, %s: raised %s" % (what, desc, got))
+        else:
+            ok, why = core.close(got[0], fmat(torch, exp[field]), 1e-12, 1e-12)
+            if not ok:
+                res.update(ok=False, sig="C05/%s/value/exact" % area, detail="%s, %s: differs from B B^T + diag(v) / the per-point interleaved Kronecker product evaluated exactly by TLC: %s" % (what, desc, why))
+            elif got[1] is not None:
+                ok, why = core.close(got[1], torch.tensor([float(fr(v)) for v in exp["diag"]], dtype=D), 1e-12, 1e-12)
+                if not ok:
+                    res.update(ok=False, sig="C05/%s/diag/exact" % area, detail="%s, %s: diag=True differs from the exact diagonal computed by TLC: %s" % (what, desc, why))
+        out.append(res)
+    return out
+
+
 def run_layout(torch, gpytorch, c):
     """TLC's permutation applied to the reference derivatives in BLOCK order must give the kernel's output (shape and entries)"""
     from checks import c05_ref as R
@@ -532,8 +686,10 @@ def run(ck):
     ck.rule = ("cells = every valid combination of kernel family (25) x input dim x ARD x active_dims x composition (plain, Scale, Sum, Product, additive / product structure) x "
                "batch (none, kernel+inputs, inputs only) x mode (n1>n2, n1<n2, x2=None, diag) x path forcing (none, x1/x2.requires_grad, trace_mode) enumerated by TLC with the branch the "
                "dispatch predicate selects; each cell is evaluated through the real kernel on seeded float64 inputs and compared with the documented formula (derivative kernels: autograd "
-               "derivatives of the base formula, entry by entry); exact = rational instances evaluated by TLC; non-trivial = every lattice cell (distinct by cell) and every exact instance "
-               "with a composite expression / derivative / d >= 2")
+               "derivatives of the base formula, entry by entry); args cells = every (kernel, optional documented constructor argument, value class incl. every non-default class) x ARD x batch x "
+               "mode of the constructor-argument lattice of Kernels.tla (delta_func, base kernels, eps, power, num_mixtures, num_deltas, num_angular_weights, vocab_size, max_degree, rank, "
+               "distance_function, active_dims, every *_constraint and *_prior), same replay; every parameter tensor has pairwise distinct entries (asserted per cell); exact = rational "
+               "instances evaluated by TLC; non-trivial = every lattice cell (distinct by cell) and every exact instance with a composite expression / derivative / d >= 2")
     ck.assumptions = [
         "level 'other': the numeric dimension is sampled (seeded inputs and parameters), only the configuration lattice and the rational instances are exhaustive / exact",
         "tolerance 1e-9 relative to the largest entry of the matrix (+1e-12 absolute); SpectralMixtureKernel 1e-7; exact instances 1e-12",
@@ -550,18 +706,30 @@ def run(ck):
         "inside Additive/ProductStructureKernel (D is not defined there)",
         "NewtonGirardAdditiveKernel stores its intermediate sums in the DEFAULT dtype: compared at 2e-6 under the float32 default and at 1e-9 with torch.set_default_dtype(float64)",
         "diag=True is evaluated as kernel(x, diag=True) (x1 == x2, as documented); parameters are set through the public setters as float64 tensors and the reference uses the values set",
+        "constructor arguments: a constraint / prior / the eps of a stationary kernel (documented as the minimum lengthscale; lengthscales here are >= 0.5) is NEUTRAL - the covariance function at "
+        "the parameter values set does not mention it; for '<name>_prior = closure' the parameter is set through the setting closure registered with the prior instead of the setter; "
+        "SpectralMixtureKernel accepts and ignores priors (it logs a warning), IndexKernel's prior has no setting closure: both only checked as neutral",
+        "ArcKernel: delta_func in {x >= 0 per coordinate, coordinates 1.. active iff coordinate 0 > 0}; an inactive coordinate embeds at [0, 0] (docstring), base kernel in {Matern 5/2, 3/2, RBF, RQ, "
+        "polynomial} with the unit lengthscale ArcKernel.__init__ gives it; lengthscale / angle / radius per dimension with ard_num_dims",
+        "CylindricalKernel(eps): the stability constant of the Kumaraswamy warp, 1 - (1 - r^alpha + eps)^beta; RFFKernel: (1/D) sum_i cos(w_i . (x - x')), w = randn_weights / lengthscale with "
+        "the randn_weights buffer read back from the kernel; DistributionalInputKernel: exp(-distance_function(x1, x2) / lengthscale) for user-supplied distance functions",
+        "IndexKernel B B^T + diag(var); MultitaskKernel K_XX (x) K_TT with the task index fastest; LCMKernel the sum of its terms; MultitaskKernel with a batched task covariance AND batched inputs "
+        "raises (recorded under C08) and is not part of the lattice; NewtonGirardAdditiveKernel(max_degree) defaults to num_dims and is capped at num_dims (both documented)",
+        "not replayed: GridKernel / GridInterpolationKernel / InducingPointKernel (approximations, C09 / C02), MultiDeviceKernel (CUDA), KeOps kernels (excluded by the quantifier), the deprecated "
+        "param_transform / batch_size arguments",
     ]
     wd = os.path.join(tlc.BUILD, PID)
     insts = gen_instances(rnd, thorough)
     pps = [i for i in insts if i["kind"] == "pp"]
     half = len(insts) // 2
     jobs = []
-    for name, part, ii, inv in (("lattice", "lattice", (), ["LatticeOK"]), ("layout", "layout", (), ["LayoutOK"]), ("exactA", "exact", insts[:half], ["ExactOK"]),
-                                ("exactB", "exact", insts[half:], ["ExactOK"]), ("ppcode", "ppcode", pps, ["PPCodeOK"])):
+    for name, part, ii, inv in (("lattice", "lattice", (), ["LatticeOK"]), ("layout", "layout", (), ["LayoutOK"]), ("exactA", "exact", insts[:half], ["ExactOK", "DistinctOK"]),
+                                ("exactB", "exact", insts[half:], ["ExactOK", "DistinctOK"]), ("ppcode", "ppcode", pps, ["PPCodeOK"]), ("args", "args", (), ["ArgsOK"])):
         mod, cfg = write_mc(wd, name, part, ii, inv)
-        jobs.append(((mod, cfg), dict(name=PID + "/" + name, dump=True, check=False, workers=4, timeout=1500, coverage=False)))
-    rs = tlc.run_many(jobs, parallel=5)
-    labels = ("configuration lattice + dispatch predicate", "derivative-kernel layout", "exact rational instances A", "exact rational instances B", "piecewise polynomial: code transcription vs documentation")
+        jobs.append(((mod, cfg), dict(name=PID + "/" + name, dump=True, check=False, workers=2, timeout=1500, coverage=False)))
+    rs = tlc.run_many(jobs, parallel=3)
+    labels = ("configuration lattice + dispatch predicate", "derivative-kernel layout", "exact rational instances A", "exact rational instances B", "piecewise polynomial: code transcription vs documentation",
+              "constructor-argument lattice")
     for lab, r in zip(labels, rs):
         ck.add_tlc(r, "Kernels " + lab)
         if r.violation:
@@ -569,12 +737,21 @@ def run(ck):
                            "the transcription of _get_cov deviates from the documented polynomial (prediction; decided by the replay of the pp cells)" if r.violation["name"] == "PPCodeOK" else "see tlc.out"))
         elif r.rc != 0:
             raise tlc.TLCError("TLC failed on Kernels %s:\n%s" % (lab, r.stdout[-1500:]))
-    if any(r.violation for r in rs[:4]):
-        raise tlc.TLCError("Kernels.tla: an invariant of the declarative parts is violated (%s); the generated cases are incomplete" % [r.violation["name"] for r in rs[:4] if r.violation])
+    decl = rs[:4] + rs[5:]
+    if any(r.violation for r in decl):
+        raise tlc.TLCError("Kernels.tla: an invariant of the declarative parts is violated (%s); the generated cases are incomplete" % [r.violation["name"] for r in decl if r.violation])
     cells = [dict(st["c"], path=st["out"]) for st in rs[0].states()]
     cells.sort(key=lambda c: sorted(c.items()).__repr__())
     if len(cells) < 5000:
         ck.vacuous("configuration lattice has only %d cells" % len(cells))
+    argcells = [dict(st["c"], path=None, effect=st["out"]["effect"], dflt=st["out"]["dflt"]) for st in rs[5].states()]
+    argcells.sort(key=lambda c: sorted((k, str(v)) for k, v in c.items()).__repr__())
+    pairs = {(c["fam"], c["arg"]) for c in argcells}
+    nondefault = {(c["fam"], c["arg"]) for c in argcells if c["val"] != c["dflt"]}
+    if len(argcells) < 3000 or pairs != nondefault:
+        ck.vacuous("constructor-argument lattice: %d cells, (kernel, argument) pairs without a non-default value: %s" % (len(argcells), sorted(pairs - nondefault)))
+    if not any(c["fam"] == "arc" and c["arg"] == "delta_func" and c["val"] != "ones" for c in argcells):
+        ck.vacuous("no cell builds ArcKernel with a user-supplied delta_func")
     layout = [(dict(st["c"]), _plain(st["out"])) for st in rs[1].states()]
     if len(layout) != 54:
         ck.vacuous("layout lattice has %d cells instead of 54" % len(layout))
@@ -595,7 +772,7 @@ def run(ck):
     for n in (2, 3):
         cases.append(dict(kind="special", what="diag-ldb", n=n, seed=ck.seed + n))
     seeds = 3 if thorough else 1
-    for k, cell in enumerate(cells):
+    for k, cell in enumerate(cells + argcells):
         for s in range(seeds):
             cases.append(dict(kind="cell", cell=cell, seed=(ck.seed * 7919 + k) * 4 + s))
     fams = {c["fam"] for c in cells}
@@ -614,7 +791,11 @@ def run(ck):
     ck.exhaustive = False
     ck.section("lattice", cells=len(cells), families=len(fams), fast_path_cells=sum(1 for c in cells if c["path"] == "fast"), generic_path_cells=sum(1 for c in cells if c["path"] == "generic"),
                single_path_cells=sum(1 for c in cells if c["path"] == "single"), seeds_per_cell=seeds)
-    ck.section("exact", rational_instances=len(insts), **{k: sum(1 for i in insts if i["kind"] == k) for k in ("expr", "polygrad", "rbfratio", "pp", "ng")}, layout_cells=len(layout))
+    ck.section("constructor_arguments", cells=len(argcells), kernel_argument_pairs=len(pairs), families=len({c["fam"] for c in argcells}),
+               neutral_pairs=len({(c["fam"], c["arg"]) for c in argcells if c["effect"] == "neutral"}), formula_pairs=len({(c["fam"], c["arg"]) for c in argcells if c["effect"] == "formula"}),
+               non_default_cells=sum(1 for c in argcells if c["val"] != c["dflt"]))
+    ck.extra["constructor_argument_pairs"] = ["%s.%s in {%s}" % (f, a, ", ".join(sorted({c["val"] for c in argcells if (c["fam"], c["arg"]) == (f, a)}))) for f, a in sorted(pairs)]
+    ck.section("exact", rational_instances=len(insts), **{k: sum(1 for i in insts if i["kind"] == k) for k in ("expr", "polygrad", "rbfratio", "pp", "ng", "arcmask", "mtask")}, layout_cells=len(layout))
     ck.extra["trusted_base"] = ["checks/c05_ref.py (documented formulas in plain torch / mpmath)", "torch.autograd (reference derivatives)", "TLC + Rational.tla / LinAlg.tla"]
 
 
